@@ -266,8 +266,77 @@ func ruleC29(c *Ctx) {
 			c.RequireFactsAtCalls("facts", tb, "builtin:append", "call:strings.IndexByte >= 0 | 0 <= call:strings.IndexByte")
 		}
 	}
+	// an address is valid on its own network only: the prefix test answers true only from a
+	// comparison with the HRP of the Params it was given (param #1), never from other networks' entries
+	if ip := c.Func("consensus", "IsBech32SegwitPrefix"); ip != nil {
+		nTrue, okP, dP := 0, true, ""
+		for _, b := range ip.Blocks {
+			ret, isR := b.Instrs[len(b.Instrs)-1].(*ssa.Return)
+			if !isR {
+				continue
+			}
+			for _, og := range valueOrigins(canon(ret.Results[0]), ret) {
+				if k, isK := og.val.(*ssa.Const); isK && k.Value != nil {
+					if k.Value.ExactString() == "false" {
+						continue
+					}
+					// constant true: the deciding comparison is the branch leading here
+					nTrue++
+					ownHRP := false
+					isOwn := func(v ssa.Value) bool {
+						fa, ok := v.(*ssa.FieldAddr)
+						if !ok {
+							return false
+						}
+						_, fn, _ := fieldOf(fa)
+						return fn == "Bech32HRPSegwit" && paramN(1)(fa.X)
+					}
+					// the deciding comparison: the branch whose true edge enters the block that answers true
+					// (directly, or the φ-input's supplying branch)
+					var decide *ssa.If
+					if iff, isIf := og.at.(*ssa.If); isIf && og.to != nil && iff.Block().Succs[0] == og.to {
+						decide = iff
+					} else if blk := og.at.Block(); len(blk.Preds) == 1 {
+						if iff, isIf := blk.Preds[0].Instrs[len(blk.Preds[0].Instrs)-1].(*ssa.If); isIf && blk.Preds[0].Succs[0] == blk {
+							decide = iff
+						}
+					}
+					if decide != nil && mentions(decide.Cond, isOwn, 6, nil) {
+						ownHRP = true
+					}
+					if !ownHRP {
+						okP, dP = false, "answers true at "+c.Pos(retPos(ret))+" without comparing with the given Params' HRP"
+					}
+					continue
+				}
+				nTrue++
+				if !mentions(og.val, func(v ssa.Value) bool {
+					fa, ok := v.(*ssa.FieldAddr)
+					if !ok {
+						return false
+					}
+					_, fn, _ := fieldOf(fa)
+					return fn == "Bech32HRPSegwit" && paramN(1)(fa.X)
+				}, 6, nil) {
+					okP, dP = false, "result at "+c.Pos(retPos(ret))+" is not a comparison with the given Params' HRP"
+				}
+			}
+		}
+		c.Require("dataflow", fname(ip)+": true only for the HRP of the network parameters it was given", okP && nTrue >= 1, "%d non-false result origin(s) %s", nTrue, dP)
+	}
 	da := c.Func("common", "DecodeAddress")
 	if da != nil {
+		// the string whose checksum and case rule are verified is the caller's string, untouched: any
+		// normalisation before the bech32 decoder (ToLower, TrimSpace, …) would let it accept strings
+		// that differ from a valid address in a single character
+		okRaw, nDec := true, 0
+		for _, s := range callsTo(da, false, "common.decodeSegWitAddress", "common/bech32.Bech32Decode") {
+			nDec++
+			if a := s.Common().Args; len(a) < 1 || canon(a[0]) != ssa.Value(da.Params[0]) {
+				okRaw = false
+			}
+		}
+		c.Require("dataflow", fname(da)+": the bech32 decoder is handed the caller's address string unchanged", okRaw && nDec >= 1, "%d decode call(s)", nDec)
 		ok, n := true, 0
 		for _, ri := range returnsOf(da) {
 			if !ri.Success || isNilConst(ri.Ret.Results[0]) {
@@ -511,6 +580,21 @@ func ruleC30(c *Ctx) {
 			}
 		}
 		c.Require("facts", fname(gp)+": a related leaf is consumed only when the proof hash equals it", ok, "merkleHashes.Remove under hash == relatedHash")
+		// a proof hash is consumed only under one of the known flags (an unknown flag byte must not be
+		// read as "assist")
+		nRm, okFlag, dFlag := 0, true, ""
+		fa, fl := c.constVal(pTypes, "FlagAssist"), c.constVal(pTypes, "FlagTxLeaf")
+		for _, s := range callsTo(gp, false, "(*container/list.List).Remove") {
+			if !mentions(s.Common().Args[0], paramN(0), 2, nil) {
+				continue
+			}
+			nRm++
+			have := factsAt(s)
+			if !have["assert:uint8 == "+fa] && !have["assert:uint8 == "+fl] {
+				okFlag, dFlag = false, "proofHashes.Remove at "+c.Pos(s.Pos())+" is not under flag == FlagAssist or flag == FlagTxLeaf"
+			}
+		}
+		c.Require("facts", fname(gp)+": a proof hash is consumed only under a known flag value", okFlag && nRm >= 2, "%d removal(s) %s", nRm, dFlag)
 		// in the leaf case, the proof hash is consumed only on equality too
 		okh := true
 		sc := c.ScopeWhen(gp, "leaf flag", "assert:uint8 == "+c.constVal(pTypes, "FlagTxLeaf"))
